@@ -12,7 +12,7 @@ import yaml
 from lxml import etree as ET
 
 from ..parser_utils import ParserException
-from ..xmlparser import XML_HEADER
+from ..xmlparser import XML_HEADER, to_csv
 
 from ...format import Document, Section, Property
 from ...info import FORMAT_VERSION
@@ -300,24 +300,22 @@ class VersionConverter(object):
             prop_id = "%s|%s:%s" % (sname, stype, prop.find("name").text)
 
             # Special handling of Values
+            value_texts = []
             for value in prop.iter("value"):
                 # Move supported elements from Value to parent Property.
                 self._handle_value(value, prop_id)
 
                 if value.text:
-                    if main_val.text:
-                        main_val.text += "," + value.text.strip()
-                        multiple_values = True
-                    else:
-                        main_val.text = value.text.strip()
+                    value_texts.append(value.text.strip())
 
                 prop.remove(value)
 
             # Append value element only if it contains an actual value
-            if main_val.text:
-                # Multiple values require brackets
-                if multiple_values:
-                    main_val.text = "[" + main_val.text + "]"
+            if value_texts:
+                # Multiple values require brackets and, like everywhere else in
+                # the v1.1 format, csv quoting of values containing a comma.
+                multiple_values = len(value_texts) > 1
+                main_val.text = to_csv(value_texts)
 
                 prop.append(main_val)
 
